@@ -381,7 +381,14 @@ def c19_15(ctx):
     return shared_obligations(ctx, ["network", "helper", "block", "compactfilter"], "the result would depend on something other than the arguments and the object's current state")
 
 
+def c19_16(ctx):
+    """the 80-byte block header codec headers messages are made of: writer, reader and protocol layout agree, unsigned fields included (shared with C17.5)"""
+    from rules.C17 import c17_5
+    return c17_5(ctx)
+
+
 OBLIGATIONS = [
+    ("C19.16", "LAYOUT vs spec (shared C17.5)", c19_16),
     ("C19.15", "SHARED", c19_15),
     ("C19.14", "SET-ORDER", c19_14),
     ("C19.13", "MEMO", c19_13),
